@@ -169,6 +169,13 @@ impl Driver for HistDriver {
         m
     }
 
+    fn epilogue(&self, sh: &HistShared, rec: &Recorder) {
+        rec.call("collect", Val::Unit, || sh.collect(self.path));
+        rec.call("get_sample_count", Val::Unit, || Val::I(sh.h.get_sample_count() as i64));
+        rec.call("get_sample_sum", Val::Unit, || Val::F(sh.h.get_sample_sum()));
+        rec.call("collect", Val::Unit, || sh.collect(self.path));
+    }
+
     fn spec(&self) -> serde_json::Value {
         serde_json::json!({"kind": "histogram", "label": self.label, "path": self.path, "prop": self.prop, "prelude": self.prelude, "programs": self.programs, "audit": self.audit})
     }
@@ -197,12 +204,33 @@ impl Driver for HistDriver {
                 upds.push(Upd { call: c, vals: values_of(&self.programs[c.thread][idx]) });
             }
         }
+        // NaN observations poison the sum: such drivers are judged by counts only
+        // (termination, real-time bounds on the count, conservation at quiescence)
+        if universe.iter().any(|v| v.is_nan()) {
+            for c in x.calls.iter().filter(|c| c.name == "collect") {
+                let (count, cum) = match &c.ret {
+                    Val::Snap(a, _, b) => (*a, b.clone()),
+                    other => return Err((format!("{}:collect-shape", tag), format!("collect returned {:?}", other))),
+                };
+                let lo: usize = pre_vals.len() + upds.iter().filter(|u| u.call.precedes(c)).map(|u| u.vals.len()).sum::<usize>();
+                let hi: usize = pre_vals.len() + upds.iter().filter(|u| !c.precedes(u.call)).map(|u| u.vals.len()).sum::<usize>();
+                let hi = if c.thread == 99 { lo } else { hi };
+                if (count as usize) < lo || (count as usize) > hi || cum.last().map(|l| *l > count).unwrap_or(false) {
+                    return Err((format!("{}:nan-driver-count:{}", tag, self.label), format!("snapshot {} has count {} (buckets {:?}); {}..={} observations are possible; history: {}", c.show(), count, cum, lo, hi, x.calls.iter().map(|c| c.show()).collect::<Vec<_>>().join("; "))));
+                }
+            }
+            let qc = x.calls.iter().find(|c| c.thread == 99 && c.name == "get_sample_count").map(|c| c.ret.f()).unwrap_or(-1.0);
+            if qc != universe.len() as f64 {
+                return Err((format!("{}:nan-driver-accessor:{}", tag, self.label), format!("get_sample_count {} after {} observations", qc, universe.len())));
+            }
+            return Ok(format!("nan-driver|{:?}", x.calls.iter().filter(|c| c.name == "collect").map(|c| format!("{:?}", c.ret)).collect::<Vec<_>>()));
+        }
         // snapshots: collects of the run plus a final quiescent one
-        let end = x.steps.len() + 1;
-        let final_snap = sh.collect(self.path);
-        let final_call = Call { thread: 99, name: "collect".into(), arg: Val::Unit, ret: final_snap, inv: end, res: end + 1 };
+        let all_collects: Vec<&Call> = x.calls.iter().filter(|c| c.name == "collect").collect();
+        if !all_collects.iter().any(|c| c.thread == 99) {
+            return Err((format!("{}:collect-shape", tag), "no quiescent collect recorded".into()));
+        }
         let mut snaps: Vec<(&Call, Vec<f64>)> = vec![];
-        let all_collects: Vec<&Call> = x.calls.iter().filter(|c| c.name == "collect").chain(std::iter::once(&final_call)).collect();
         let show = |x: &Execution| x.calls.iter().map(|c| c.show()).collect::<Vec<_>>().join("; ");
         for c in all_collects {
             let (count, sum, cum) = match &c.ret {
@@ -282,20 +310,17 @@ impl Driver for HistDriver {
                     }
                 }
             }
-            // conservation at quiescence
-            let (_, fs) = snaps.last().unwrap();
-            if fs.len() != universe.len() {
-                return Err((format!("C03:final-snapshot-incomplete:{}", self.label), format!("after all threads finished the snapshot describes {:?}, all observations are {:?}; history: {}", fs, universe, show(x))));
-            }
+            // conservation at quiescence: both quiescent snapshots (epilogue) describe everything
             let total: f64 = universe.iter().sum();
-            if sh.h.get_sample_count() != universe.len() as u64 || sh.h.get_sample_sum() != total {
-                return Err((format!("C03:accessors-disagree:{}", self.label), format!("get_sample_count/sum = {}/{} but {} observations with sum {}; history: {}", sh.h.get_sample_count(), sh.h.get_sample_sum(), universe.len(), total, show(x))));
-            }
-            // a second quiescent collect reports the same
-            if let Val::Snap(c2, s2, _) = sh.collect(self.path) {
-                if c2 != universe.len() as u64 || s2 != total {
-                    return Err((format!("C03:final-snapshot-unstable:{}", self.label), format!("second quiescent collect: count {} sum {}; history: {}", c2, s2, show(x))));
+            for (c, fs) in snaps.iter().filter(|(c, _)| c.thread == 99) {
+                if fs.len() != universe.len() {
+                    return Err((format!("C03:final-snapshot-incomplete:{}", self.label), format!("after all threads finished the snapshot {} describes {:?}, all observations are {:?}; history: {}", c.show(), fs, universe, show(x))));
                 }
+            }
+            let qc = x.calls.iter().find(|c| c.thread == 99 && c.name == "get_sample_count").map(|c| c.ret.f());
+            let qs = x.calls.iter().find(|c| c.thread == 99 && c.name == "get_sample_sum").map(|c| c.ret.f());
+            if qc != Some(universe.len() as f64) || qs != Some(total) {
+                return Err((format!("C03:accessors-disagree:{}", self.label), format!("get_sample_count/sum = {:?}/{:?} but {} observations with sum {}; history: {}", qc, qs, universe.len(), total, show(x))));
             }
             // termination: a spinning collector waits only for in-flight observers
             for (t, call, others) in &x.spin_obs {
@@ -370,6 +395,9 @@ pub fn hb_audit(steps: &[StepRec], n: usize, data: &HashSet<usize>, sync: &HashS
     let nm = |a: usize| names.get(&a).cloned().unwrap_or_else(|| format!("{:#x}", a));
     for (si, s) in steps.iter().enumerate() {
         let t = s.thread;
+        if t >= n {
+            continue; // quiescent epilogue (sequential, after every thread has finished)
+        }
         let kind = match s.kind {
             PKind::Sync(k) => k,
             _ => continue,
@@ -554,6 +582,9 @@ pub fn driver_set(prop: Prop, thorough: bool) -> Vec<Planned> {
             shapes.push(("E5 BatchO|CCC", Path::Direct, vec![vec![Batch(vec![a, e]), Observe(c)], col(3)], Mode::U));
             shapes.push(("D7 O|CCC|Reader", Path::Direct, vec![o(&[a]), col(3), vec![ReadCount, ReadSum]], big));
             shapes.push(("E6v Batch|CCC", Path::VecChild, vec![vec![Batch(vec![a, e])], col(3)], Mode::U));
+            // NaN observations (count-only oracle: termination and conservation)
+            shapes.push(("E9 O(NaN)O|CCC", Path::Direct, vec![vec![Observe(f64::NAN), Observe(d)], col(3)], Mode::U));
+            shapes.push(("E10 Batch(NaN)|CC", Path::Direct, vec![vec![Batch(vec![f64::NAN, a])], col(2)], Mode::U));
             if thorough {
                 shapes.push(("E7 OO|OO|CCC", Path::Direct, vec![o(&[a, d]), o(&[b, f]), col(3)], Mode::B(3)));
                 shapes.push(("E8 O|C|C|C", Path::Direct, vec![o(&[a]), col(1), col(1), col(1)], Mode::B(3)));
